@@ -1401,27 +1401,48 @@ def extra_checks(rng, tier, cov):
 LEVEL_TEXT = ('Machine-checked Coq theorems about an executable model of read_tabular, for all integers and all strings: '
               '(1) the orientation decision yields [min(sstart,send)-1, max(sstart,send)), strand - iff subject and query run in '
               'opposite directions, ValueError iff an explicit sstrand contradicts, N/A -> ".", rows without direction take the sstrand '
-              'column (plus/minus mapped); (2) the regenerated column tables are consistent (finite, re-checked against /repo on every run); '
-              '(3) a tokenised row gives one typed format-metadata entry per column, the common metadata seqid/name/evalue/score and the '
-              'type chosen by ftype; int() of a decimal rendering returns the number; (4) ON TEXT, file -> rows: BLAST outfmt 6/10 and '
+              'column (plus/minus mapped); (2) the regenerated column tables are consistent (finite, re-checked against /repo on every run), '
+              'and EVERY column of every dialect has the type of a declared-type table written from the manuals of the three tools '
+              '(C11_declared_tables; _CONVERTH entries agree with the type of the BLAST column they stand for, except qframe/sframe which '
+              'MMseqs2 writes as text); (3) a tokenised row gives one format-metadata entry per column, converted with that declared type '
+              '(C11_columns_typed, C11_conv_meaning), the common metadata is exactly [type] + score<-bit score, evalue<-e-value, '
+              'seqid<-subject id, name<-query id for the columns present and nothing else (C11_common_metadata, C11_copyattrs_documented), '
+              'the type chosen by ftype; int() of a decimal rendering returns the number; (4) ON TEXT, file -> rows: BLAST outfmt 6/10 and '
               'MMseqs2 fmtmode 0 (defaults or outfmt=, separator or sep=None), BLAST outfmt 7 with one or several "# Fields:" blocks, '
               'MMseqs2 fmtmode 4 (name row), Infernal tblout (ruler, column-count map, whitespace split with maxsplit keeping the '
-              'description); header lines are ignored and comment/blank lines may stand anywhere when outfmt= is given; CRLF and '
-              'universal newlines do not matter; (5) read(render H) has the specified locations, strands and common metadata for every '
-              'abstract hit list H under ANY accepted column selection (distinct table columns containing the eight required ones) given '
-              'by outfmt=, by a "# Fields:" line or by the MMseqs2 name row, and for all four Infernal tables (fmt 1, 2, 2old, 3); hence '
-              'equal across all eight renderings. The model is tied to sugar.read_fts by differential testing on rendered hit lists, a '
-              'mutation stream and multi-read histories; all statements of the modelled functions are executed in the quick tier.')
+              'description with its blanks, tabs, "#" and "--"); header lines are ignored and comment/blank lines may stand anywhere when '
+              'outfmt= is given; CRLF and universal newlines do not matter; (5) read(render H) has the specified locations, strands and '
+              'common metadata for every abstract hit list H under ANY accepted column selection (distinct table columns containing the '
+              'eight required ones) given by outfmt=, by a "# Fields:" line or by the MMseqs2 name row, and for all four Infernal tables '
+              '(fmt 1, 2, 2old, 3; C11_read_infernal_fmt_hits has no table hypotheses left); hence equal across all eight renderings; '
+              '(6) for ANY list of lines, with no assumption on their shape: when the columns are known (outfmt=, or the defaults and no '
+              'line that starts header discovery; Infernal: anything after the ruler) the result is row_feature of exactly the lines that '
+              'are neither "#" lines nor blank nor an MMseqs2 name row, in order, first error wins (C11_read_any_outfmt, C11_read_any_text, '
+              'C11_read_infernal_any) - hence one feature per data line (C11_feature_count), comment/blank lines are irrelevant wherever '
+              'they stand (C11_comments_irrelevant), the comments list of the model is the "#" lines in order (C11_comments_list), and two '
+              'texts one after the other read to the first result followed by the second (C11_read_concat); (8) no MMseqs2 column name '
+              'reads as an integer, so a row holding a coordinate - any rendered hit row - is never taken for the name row '
+              '(C11_names_row_never_hit). The model is tied to sugar.read_fts by differential testing on rendered hit lists, a mutation '
+              'stream, an any-text stream (line soups), multi-block files (several "# Fields:" lines with different selections, repeated '
+              'name rows, concatenated Infernal tables), a directed typed-column stream (every column of every table with signed, zero, '
+              'padded, exponent, inf/nan and non-numeric tokens), concatenation histories and multi-read histories; all statements of the '
+              'modelled functions are executed in the quick tier.')
 LEVEL_NOTE = ('Trusted: Coq kernel/vm_compute, tools/gens/c11.py (tables), the correspondence harness, CPython int()/float()/str methods '
               '(the Gallina int()/float() are compared with CPython on every case; float() is not characterised by a theorem, float values '
               'are compared as exact decimal literals, DESIGN 5.3). Modelled rather than verified: core.py read_tabular and '
               '_headers_from_fmtstrings, the three reader wrappers, the comments= option. The domain is Latin-1 text; decoding the bytes of a file '
               '(encoding=, BOM) is CPython\'s and is only tested. Tested only (no theorem): agreement of the '
-              'Gallina float() with CPython; the comments= list; MMseqs2 fmtmode 4 and BLAST outfmt 7 header discovery combined with '
-              'sep=None; several "# Fields:" blocks whose rows are read with sep=None; a last line without terminator; the sniffers '
-              'is_fts_* (property C03). In the end-to-end theorems a hit under a selection with a strand column must have a direction '
-              '(the directionless case is covered by C11_orient_no_direction on rows). '
-              'Statement coverage of the modelled functions in the quick tier: 86/86, no unreachable lines. '
+              'Gallina float() with CPython; that the comments= list is filled while reading (the theorem is about the model\'s list); '
+              'MMseqs2 fmtmode 4 and BLAST outfmt 7 header discovery combined with '
+              'sep=None; several "# Fields:" blocks whose rows are read with sep=None; a last line without terminator in the rendered-file '
+              'theorems (the any-text theorems (6) cover it); the sniffers '
+              'is_fts_* (property C03); everything between the file name and the text (main.py: archives, glob, stdin, detection). '
+              'The declared-type table of the Coq model and the one of the Python oracle are two hand-written copies of the manuals; the '
+              'regenerated _HEADER table is compared with the first by C11_declared_tables and with the second by the typed-column stream. '
+              'In the end-to-end theorems a hit under a selection with a strand column must have a direction '
+              '(the directionless case is covered by C11_orient_no_direction on rows). A second MMseqs2 name row or Infernal ruler in one '
+              'file is ignored by sugar (the first column set stays): modelled as it is, the oracle only speaks about repeated identical '
+              'tables. Statement coverage of the modelled functions in the quick tier: 86/86, no unreachable lines. '
               'State independence (no caches or shared objects between reads, rows or dialects) is not a theorem about sugar: the model '
               'is pure by construction and the history stream compares every step of multi-read histories with it. '
               'Rows without a direction take the strand of the sstrand column (plus/minus words mapped, commit 7bd306b). '
